@@ -460,7 +460,7 @@ type c13Profile struct {
 
 // simple: an "overwrite with constants or keep" profile (hypothesis AppliedSimple of readmission_idempotent)
 func (p *c13Profile) simple() bool {
-	return len(p.keyMap) == 0 && len(p.suffixes) == 0 && !p.hasPatch
+	return len(p.keyMap) == 0 && len(p.suffixes) == 0 && len(p.patchRes) == 0
 }
 
 func (p *c13Profile) skipped(rnd int) bool {
